@@ -871,6 +871,87 @@ def _(T):
     return dict(rule=rule, keeps=keeps, slices=slices)
 
 
+@extractor("pixel_box")
+def _(T):
+    """`PixelRenderer.__init__`: the index arithmetic that places the oversampled box — `i_mid`, `j_mid`, `x_os_lo/hi`, `y_os_lo/hi` —
+    translated into integer expressions of the image sides and `os_pixel_size`.  Values are tracked as numerators over 2 (image
+    sides, halves, `x_mid = N/2 − 0.5`), so `int(…)`, `round(…)` (half to even) and `//` keep their Python meaning."""
+    tree, src = T["rendering.py"]
+    init = find_func(tree, "__init__", cls="PixelRenderer")
+    base = find_func(tree, "__init__", cls="BaseRenderer")
+    attrs = {}
+    for st in base.body:
+        if isinstance(st, ast.Assign) and len(st.targets) == 1 and (ast.get_source_segment(src, st.targets[0]) or "") in ("self.x_mid", "self.y_mid"):
+            attrs[ast.get_source_segment(src, st.targets[0])] = st.value
+    env = {}
+
+    def half(e):
+        """(Lean Int text of 2·value, value known to be an integer)"""
+        seg = ast.get_source_segment(src, e) or ""
+        if isinstance(e, ast.Constant) and isinstance(e.value, (int, float)) and not isinstance(e.value, bool):
+            two = Fraction(seg if seg else repr(e.value)) * 2
+            if two.denominator != 1:
+                raise Miss(f"constant {seg} is not a multiple of 0.5")
+            return f"({int(two)} : Int)", two.numerator % 2 == 0
+        if seg in ("self.im_shape[0]", "im_shape[0]"):
+            return "(2 * (N0 : Int))", True
+        if seg in ("self.im_shape[1]", "im_shape[1]"):
+            return "(2 * (N1 : Int))", True
+        if seg in ("self.os_pixel_size", "os_pixel_size"):
+            return "(2 * (os : Int))", True
+        if seg in attrs:
+            return half(attrs[seg])
+        if isinstance(e, ast.Name) and e.id in env:
+            return env[e.id]
+        if isinstance(e, ast.BinOp) and isinstance(e.op, (ast.Add, ast.Sub)):
+            (a, ia), (b, ib) = half(e.left), half(e.right)
+            return f"({a} {'+' if isinstance(e.op, ast.Add) else '-'} {b})", ia and ib
+        if isinstance(e, ast.BinOp) and isinstance(e.op, ast.Div) and isinstance(e.right, ast.Constant) and e.right.value in (2, 2.0):
+            a, ia = half(e.left)
+            if not ia:
+                raise Miss("half of a half-integer")
+            return f"({a} / 2)", False
+        if isinstance(e, ast.BinOp) and isinstance(e.op, ast.FloorDiv) and isinstance(e.right, ast.Constant) and e.right.value == 2:
+            a, ia = half(e.left)
+            if not ia:
+                raise Miss("// on a half-integer")
+            return f"(2 * (({a} / 2) / 2))", True
+        if isinstance(e, ast.BinOp) and isinstance(e.op, ast.Mult) and isinstance(e.right, ast.Constant) and isinstance(e.right.value, int):
+            a, ia = half(e.left)
+            return f"({a} * {e.right.value})", ia
+        if isinstance(e, ast.Call) and isinstance(e.func, ast.Name) and e.func.id == "int" and len(e.args) == 1:
+            a, _ = half(e.args[0])
+            return f"(2 * Int.tdiv {a} 2)", True
+        if isinstance(e, ast.Call) and isinstance(e.func, ast.Name) and e.func.id == "round" and len(e.args) == 1:
+            a, _ = half(e.args[0])
+            return f"(2 * Render.roundHalfEven {a})", True
+        raise Miss(f"index expression {seg}")
+    out = {}
+    for st in init.body:
+        if not (isinstance(st, ast.Assign) and len(st.targets) == 1):
+            continue
+        t, v = st.targets[0], st.value
+        if isinstance(t, ast.Name) and t.id in ("i_mid", "j_mid"):
+            env[t.id] = half(v)
+        tseg = (ast.get_source_segment(src, t) or "").replace(" ", "").replace("\n", "")
+        if isinstance(t, ast.Tuple) and isinstance(v, ast.Tuple) and len(t.elts) == len(v.elts) == 2:
+            for te, ve in zip(t.elts, v.elts):
+                name = (ast.get_source_segment(src, te) or "").replace("self.", "")
+                if name in ("x_os_lo", "x_os_hi", "y_os_lo", "y_os_hi"):
+                    h, isint = half(ve)
+                    if not isint:
+                        raise Miss(f"{name} is not an integer")
+                    out[name] = f"({h} / 2)"
+        elif tseg.replace("self.", "") in ("x_os_lo", "x_os_hi", "y_os_lo", "y_os_hi"):
+            h, isint = half(v)
+            if not isint:
+                raise Miss(f"{tseg} is not an integer")
+            out[tseg.replace("self.", "")] = f"({h} / 2)"
+    if set(out) != {"x_os_lo", "x_os_hi", "y_os_lo", "y_os_hi"}:
+        raise Miss(f"box bounds found: {sorted(out)}")
+    return out
+
+
 @extractor("map_init")
 def _(T):
     """where `find_MAP` starts the optimisation: the `init_loc_fn` of its AutoDelta guide, and the rounding of the returned values"""
@@ -1053,6 +1134,11 @@ def emit(c):
     A("/-- default physical ranges of linked parameters (multiband.py), substring rules in source order -/")
     A("def mbRangeRules : List MultiBand.RangeRule :=")
     A("  " + lean_list([f"⟨{lean_str(r[0])}, {lean_q(r[1])}, {lean_q(r[2])}, {b(r[3])}⟩" for r in c["mb_range_rules"]]))
+    A("")
+    pb = c["pixel_box"]
+    A("/-- PixelRenderer.__init__: the oversampled box `[x_os_lo, x_os_hi) × [y_os_lo, y_os_hi)` as integer expressions of the image sides and os_pixel_size -/")
+    for k in ("x_os_lo", "x_os_hi", "y_os_lo", "y_os_hi"):
+        A(f"def pix_{k} (N0 N1 os : Nat) : Int := {pb[k]}")
     A("")
     mi = c["map_init"]
     A("/-- BaseFitter.find_MAP: where the AutoDelta guide starts (`init_loc_fn`) and to how many decimals the returned values are rounded -/")
